@@ -239,6 +239,45 @@ Proof.
     destruct (match_members_is_tuple o _ Hm) as [es ->]. reflexivity.
 Qed.
 
+Lemma knw_isinstance : forall c p, knw (KIsInstance c p) [plain (VTyped c)].
+Proof.
+  intros c p s o Hm. cbn [apply_constr] in Hm. unfold apply_isinstance in Hm.
+  destruct (sbase s) as [|l|t|t|ms|g] eqn:Eb.
+  - destruct p; [right; exact Hm|left; unfold bmember_s; rewrite Eb; reflexivity].
+  - destruct (Bool.eqb _ p); [apply (nw_same o s Hm)|apply (nw_nil o _ Hm)].
+  - destruct p; [destruct (sub _ c); [apply (nw_same o s Hm)|destruct (sub c _); [right; exact Hm|apply (nw_nil o _ Hm)]]
+                |destruct (sub _ c); [apply (nw_nil o _ Hm)|apply (nw_same o s Hm)]].
+  - destruct (Bool.eqb _ p); [apply (nw_same o s Hm)|apply (nw_nil o _ Hm)].
+  - destruct p; [destruct (sub _ c); [apply (nw_same o s Hm)|destruct (sub c _); [right; exact Hm|apply (nw_nil o _ Hm)]]
+                |destruct (sub _ c); [apply (nw_nil o _ Hm)|apply (nw_same o s Hm)]].
+  - destruct p; [destruct (sub _ c); [apply (nw_same o s Hm)|destruct (sub c _); [right; exact Hm|apply (nw_nil o _ Hm)]]
+                |destruct (sub _ c); [apply (nw_nil o _ Hm)|apply (nw_same o s Hm)]].
+Qed.
+
+Lemma knw_isvalue : forall l p, knw (KIsValue l p) [plain (VKnown l)].
+Proof.
+  intros l p s o Hm. cbn [apply_constr] in Hm. unfold apply_isvalue in Hm.
+  destruct p.
+  - destruct (sbase s) as [|l'|t|t|ms|g] eqn:Eb.
+    + right; exact Hm.
+    + destruct (obj_eqb l' l); [apply (nw_same o s Hm)|apply (nw_nil o _ Hm)].
+    + destruct (isinst l _); [right; exact Hm|apply (nw_nil o _ Hm)].
+    + destruct l; try apply (nw_nil o _ Hm). destruct (sub c t); [right; exact Hm|apply (nw_nil o _ Hm)].
+    + destruct (isinst l _); [right; exact Hm|apply (nw_nil o _ Hm)].
+    + destruct (isinst l _); [right; exact Hm|apply (nw_nil o _ Hm)].
+  - destruct (sbase s) as [|l'|t|t|ms|g] eqn:Eb; try apply (nw_same o s Hm).
+    destruct (obj_eqb l' l); [apply (nw_nil o _ Hm)|apply (nw_same o s Hm)].
+Qed.
+
+Lemma sbase_annotate : forall s new, sbase (annotate s new) = sbase s.
+Proof. intros [b e] new. reflexivity. Qed.
+
+Lemma knw_addannot : forall n p T, knw (KAddAnnot n p) T.
+Proof.
+  intros n p T s o Hm. cbn [apply_constr] in Hm. destruct p; [|apply (nw_same o s Hm)].
+  left. rewrite bmember_single in Hm. unfold bmember_s in *. rewrite sbase_annotate in Hm. exact Hm.
+Qed.
+
 Lemma knw_always : forall p T, knw (KPred PAlways p) T.
 Proof.
   intros p T s o Hm. cbn [apply_constr apply_pred] in Hm.
@@ -257,10 +296,10 @@ Proof. intros. rewrite map_map. reflexivity. Qed.
 
 Lemma cond_nw : forall c, anw (cond_acon c) (tested c) /\ anw (invert (cond_acon c)) (tested c).
 Proof.
-  induction c as [ |cs|cs|l|l|ls|op n|t|t|c0| |b0|po|n star|pre star post|po|kps|a IHa b IHb|c IH|a IHa b IHb|a IHa b IHb];
+  induction c as [ |cs|cs|l|l|ls|op n|t|t|c0| |b0|po|n star|pre star post|po|kps|a IHa b IHb|c1|l1|n1 b1|c IH|a IHa b IHb|a IHa b IHb];
     cbn [cond_acon invert flip negb tested];
     try (split; apply anw_leaf;
-         first [ apply knw_truthy | apply knw_equals | apply knw_in | apply knw_lencmp | apply knw_lenpat
+         first [ apply knw_truthy | apply knw_isinstance | apply knw_isvalue | apply knw_addannot | apply knw_equals | apply knw_in | apply knw_lencmp | apply knw_lenpat
                | apply knw_always | apply knw_valueobject | apply knw_isassignable
                | rewrite map_plain_typed; apply knw_isassignable
                | rewrite map_plain_sub; apply knw_isassignable ]).
